@@ -516,6 +516,26 @@ func evalC18(c c18Case) (multi bool, err error) {
 // ---------------------------------------------------------------- generator
 
 func c18Gen(t *rapid.T, maxDials int) c18Case {
+	if rapid.IntRange(0, 7).Draw(t, "periodic") == 0 {
+		// k names with k (or a multiple / divisor of k) addresses each, dialled strictly in turn by one caller: what a
+		// round-robin targeter over a few services gives. A name then sees only every k-th dial of the attacker.
+		k := rapid.IntRange(2, 4).Draw(t, "k")
+		c := c18Case{UseDNS: true, DNSFirst: true, TTLms: rapid.SampledFrom([]int{0, 0, 50}).Draw(t, "pttl"), Goroutines: 1, Dials: min(maxDials, 600)}
+		six := rapid.Bool().Draw(t, "six")
+		for i := 0; i < k; i++ {
+			h := c18Host{Name: fmt.Sprintf("svc%d.c18.test", i)}
+			for j, n := 0, rapid.SampledFrom([]int{k, k, 2, 2 * k}).Draw(t, fmt.Sprintf("pn%d", i)); j < n; j++ {
+				if six {
+					h.Addrs = append(h.Addrs, netip.MustParseAddr(fmt.Sprintf("fd00:%x::%x", i+1, j+1)).String())
+				} else {
+					h.Addrs = append(h.Addrs, fmt.Sprintf("10.%d.0.%d", i, j+1))
+				}
+			}
+			c.Hosts = append(c.Hosts, h)
+			c.Targets = append(c.Targets, h.Name+":443")
+		}
+		return c
+	}
 	c := c18Case{UseDNS: rapid.IntRange(0, 5).Draw(t, "usedns") != 0, DNSFirst: rapid.IntRange(0, 4).Draw(t, "dnsfirst") != 0}
 	c.TTLms = rapid.SampledFrom([]int{0, 0, 0, -1, 50, 5}).Draw(t, "ttl")
 	c.Proxy, c.KeepAlive = rapid.Bool().Draw(t, "proxy"), rapid.Bool().Draw(t, "keepalive")
@@ -985,3 +1005,92 @@ func TestC18H2C(t *testing.T) {
 }
 
 func init() { vh.RegisterReplay("C18.h2c", vh.Replayer(runC18H2C)) }
+
+// ---------------------------------------------------------------- several attackers dialling at the same time
+
+// Attackers are independent: two attackers in one process, each with DNS caching, dial at the same
+// time from several goroutines (a rate sweep, or one attacker per target group). Each of their
+// dials goes to an address of the name; under the race detector nothing they share may race.
+type c18Many struct {
+	Attackers  int
+	Goroutines int // per attacker
+	Dials      int // per goroutine
+	Addrs      int // addresses of the name (one family)
+}
+
+func runC18Many(c c18Many) error {
+	if c.Attackers < 1 || c.Attackers > 8 || c.Goroutines < 1 || c.Goroutines > 32 || c.Dials < 1 || c.Dials > 5000 || c.Addrs < 1 || c.Addrs > 16 {
+		return fmt.Errorf("bad case")
+	}
+	c18ResolverMu.Lock()
+	defer c18ResolverMu.Unlock()
+	c18Epoch++
+	host := fmt.Sprintf("many.e%d.c18.test", c18Epoch)
+	c18Install.Do(func() { net.DefaultResolver = &net.Resolver{PreferGo: true, Dial: c18DNS.dial} })
+	want := map[string]bool{}
+	var addrs []netip.Addr
+	for j := 0; j < c.Addrs; j++ {
+		a := netip.MustParseAddr(fmt.Sprintf("10.9.0.%d", j+1))
+		addrs = append(addrs, a)
+		want[net.JoinHostPort(a.String(), "443")] = true
+	}
+	c18DNS.mu.Lock()
+	c18DNS.hosts = map[string][]netip.Addr{host + ".": addrs}
+	c18DNS.mu.Unlock()
+	recs := make([]*c18Recorder, c.Attackers)
+	var wg sync.WaitGroup
+	start := make(chan struct{})
+	for i := range recs {
+		recs[i] = &c18Recorder{}
+		tr := &http.Transport{DialContext: recs[i].DialContext}
+		atk := vegeta.NewAttacker(vegeta.Client(&http.Client{Transport: tr}), vegeta.DNSCaching(0))
+		defer atk.Stop()
+		dial := tr.DialContext
+		for g := 0; g < c.Goroutines; g++ {
+			wg.Add(1)
+			go func() {
+				defer wg.Done()
+				<-start
+				for k := 0; k < c.Dials; k++ {
+					_, _ = dial(context.WithValue(context.Background(), c18CallKey{}, k+1), "tcp", host+":443")
+				}
+			}()
+		}
+	}
+	close(start)
+	wg.Wait()
+	for i, r := range recs {
+		r.mu.Lock()
+		seen := map[string]int{}
+		for _, d := range r.dials {
+			seen[d.Addr]++
+		}
+		n := len(r.dials)
+		r.mu.Unlock()
+		if n != c.Goroutines*c.Dials {
+			return fmt.Errorf("%d attackers with DNS caching dialling at the same time: attacker %d made %d dials for %d calls", c.Attackers, i, n, c.Goroutines*c.Dials)
+		}
+		for a := range seen {
+			if !want[a] {
+				return fmt.Errorf("attacker %d dialled %q, not an address of the name", i, a)
+			}
+		}
+		if n >= 60*c.Addrs && len(seen) != c.Addrs {
+			return fmt.Errorf("%d attackers with DNS caching dialling at the same time: attacker %d used %d of the %d addresses in %d dials", c.Attackers, i, len(seen), c.Addrs, n)
+		}
+	}
+	return nil
+}
+
+func TestC18ManyAttackers(t *testing.T) {
+	vh.Check(t, 6, 150, func(t *rapid.T) {
+		c := c18Many{Attackers: rapid.IntRange(2, 4).Draw(t, "attackers"), Goroutines: rapid.IntRange(1, 8).Draw(t, "g"), Dials: rapid.IntRange(50, 400).Draw(t, "dials"), Addrs: rapid.IntRange(2, 6).Draw(t, "addrs")}
+		vh.Case("C18.manyattackers", fmt.Sprintf("%+v", c), true, fmt.Sprintf("attackers=%d", c.Attackers))
+		vh.Sample("C18.manyattackers", true, c)
+		if err := runC18Many(c); err != nil {
+			vh.Fail(t, "C18", "C18.manyattackers", c, err)
+		}
+	})
+}
+
+func init() { vh.RegisterReplay("C18.manyattackers", vh.Replayer(runC18Many)) }
